@@ -1448,7 +1448,7 @@ add_error:
                     }
                     if ($3->kind == NODE_NUMBER) {
                         $$ = $1;
-                        $1->v.number += $3->v.number;
+                        $1->v.number = (int64_t)((uint64_t)$1->v.number + (uint64_t)$3->v.number); /* wraps like the runtime */
                         break;
                     }
                     if ($3->kind == NODE_REAL) {
@@ -1585,7 +1585,7 @@ add_error:
                         CREATE_UNARY_OP($$, F_NEGATE, $3->type, $3);
                     } else if ($3->kind == NODE_NUMBER) {
                         $$ = $1;
-                        $1->v.number -= $3->v.number;
+                        $1->v.number = (int64_t)((uint64_t)$1->v.number - (uint64_t)$3->v.number);
                     } else if ($3->kind == NODE_REAL) {
                         $$ = $3;
                         $3->v.real = $1->v.number - $3->v.real;
@@ -1665,7 +1665,7 @@ add_error:
                 case NODE_NUMBER:
                     if ($3->kind == NODE_NUMBER) {
                         $$ = $1;
-                        $$->v.number *= $3->v.number;
+                        $$->v.number = (int64_t)((uint64_t)$$->v.number * (uint64_t)$3->v.number);
                         break;
                     }
                     if ($3->kind == NODE_REAL) {
